@@ -180,6 +180,7 @@ static int page_alloc(int hi, size_t n) {
   return op_alloc_ex(hi >= 0 ? A_heap_malloc : A_malloc, n, 0, 0, hi >= 0 ? hi : 0, 0);
 }
 static size_t blk_lo = 8000, blk_hi = 8192;
+static int page_nblk = 0;        /* program page-huge: a few single-block (huge) pages instead of one page of 7-9 blocks */
 
 static void visit_expect_clean(int hidx) {
   /* like op_visit, with n = 1: the heap is expected to hold no page areas if the model says it has no live block */
@@ -222,7 +223,7 @@ static void prog_page(int nremote, int owner_ops, int variant /* 0 plain, 1 heap
   int hi = 0;
   if (use_user_heap) { heap_new_op(); for (hi = 1; hi < MAXHEAPS && !hps[hi].alive; hi++) { } if (hi >= MAXHEAPS) hi = 0; }
   /* fill one page (and a bit) of the owner heap */
-  int nblk = 7 + (int)vf_randn(3);
+  int nblk = page_nblk ? page_nblk : 7 + (int)vf_randn(3);
   int mine[64], nm = 0;
   if (page_aligned) nblk += 6;
   for (int i = 0; i < nblk; i++) { int ns_ = page_alloc(hi, blk_lo + (size_t)vf_randn(blk_hi - blk_lo + 1)); if (ns_ >= 0) { mine[nm++] = ns_; } }
@@ -573,6 +574,7 @@ static int run_one(const char* out, const char* prog, uint64_t seed, int argc, c
   int nremote = 2 + (int)vf_randn(2);
   if (!strcmp(prog, "page")) prog_page(nremote, 10 + (int)vf_randn(10), 0, 1);
   else if (!strcmp(prog, "page-aligned")) { page_aligned = 1; if (blk_lo == 8000) { blk_lo = 24; blk_hi = 200; } prog_page(nremote, 14 + (int)vf_randn(10), 0, (int)vf_randn(2)); }
+  else if (!strcmp(prog, "page-huge")) { blk_lo = (size_t)17 << 20; blk_hi = (size_t)19 << 20; max_fill = 32768; page_nblk = 3; prog_page(nremote, 8, 0, (int)vf_randn(2)); }
   else if (!strcmp(prog, "page-main")) prog_page(nremote, 10 + (int)vf_randn(10), 0, 0);
   else if (!strcmp(prog, "page-delete")) prog_page(nremote, 10 + (int)vf_randn(8), 1, 1);
   else if (!strcmp(prog, "page-collect")) prog_page(nremote, 12, 2, 1);
